@@ -226,22 +226,15 @@ pub fn needs_parens_in_binop(
                 return true;
             }
 
-            // For same precedence, need parentheses on right side for:
-            // - Right-associative operators (e.g., power)
-            // - Non-associative operators (subtraction, division)
-            if child_prec == parent_prec && !is_left {
-                match parent_assoc {
-                    Assoc::Right => return true,
-                    Assoc::Left => {
-                        // For left-associative operators, right side needs parens for non-associative ones
-                        if matches!(
-                            parent_op,
-                            BinaryOp::Subtract | BinaryOp::Divide | BinaryOp::Modulo
-                        ) {
-                            return true;
-                        }
-                    }
-                }
+            // For same precedence, the operand on the side the operator does not
+            // associate to must keep its parentheses, or re-parsing regroups it:
+            // - left-associative operators: the right operand (`a - (b - c)`, `a or (b and c)`)
+            // - right-associative operators (power): the left operand (`(a ^ b) ^ c`)
+            if child_prec == parent_prec {
+                return match parent_assoc {
+                    Assoc::Left => !is_left,
+                    Assoc::Right => is_left,
+                };
             }
 
             false
